@@ -9,11 +9,11 @@ import "github.com/nats-io/nats.go"
 
 // VerifYield, when set, is called at the yield sites marked verifYield(...)
 // in this package. It must be set before any election is started.
-var VerifYield func(site string)
+var VerifYield func(instanceID, site string)
 
-func verifYield(site string) {
+func (e *kvElection) verifYield(site string) {
 	if f := VerifYield; f != nil {
-		f(site)
+		f(e.cfg.InstanceID, site)
 	}
 }
 
